@@ -141,25 +141,14 @@ theorem le_runMap {rec rec' : Rec} (h : RecLe rec rec') (op : Op) (env : Env) (k
     · exact le_bind (le_forKV (le_entryKV h _ _ _ _) _) (fun _ => le_bind (le_forKV (le_entryKV h _ _ _ _) _) (fun _ => le_refl _))
     · exact le_bind (le_forKV (le_entryKV h _ _ _ _) _) (fun _ => le_refl _)
 
-theorem le_unserProps {rec rec' : Rec} (h : RecLe rec rec') (env : Env) :
-    ∀ (props : List (String × PropT)) (acc : List (String × V)),
-      (unserProps rec env props acc).le (unserProps rec' env props acc)
-  | [], acc => le_refl _
-  | (id, p) :: rest, acc => by
-    simp only [unserProps]
-    split
-    · exact le_unserProps h env rest acc
-    · split
-      · exact le_refl _
-      · rename_i d _ _
-        rcases le_addSeg id (h .U env p.ty d) with h1 | h1
-        · rw [h1]; exact Or.inl rfl
-        · rw [← h1]
-          cases (rec .U env p.ty d).addSeg id with
-          | ok y => exact le_unserProps h env rest _
-          | err e => exact le_refl _
-          | panic => exact le_refl _
-          | fuel => exact le_refl _
+theorem le_objEntryU {rec rec' : Rec} (h : RecLe rec rec') (env : Env) (props : List (String × PropT))
+    (k : String) (d : V) : (objEntryU rec env props k d).le (objEntryU rec' env props k d) := by
+  unfold objEntryU
+  split
+  · exact le_refl _
+  · split
+    · exact le_refl _
+    · exact le_addSeg _ (h _ _ _ _)
 
 theorem le_objRaw {rec rec' : Rec} (h : RecLe rec rec') (env : Env) (props : List (String × PropT)) (v : V) :
     (objRaw rec env props v).le (objRaw rec' env props v) := by
@@ -174,7 +163,7 @@ theorem le_objRaw {rec rec' : Rec} (h : RecLe rec rec') (env : Env) (props : Lis
     · exact le_refl _
     · split
       · exact le_refl _
-      · exact le_bind (le_refl _) (fun _ => le_unserProps h _ _ _)
+      · exact le_bind (le_refl _) (fun _ => le_forSV (le_objEntryU h _ _) _)
 
 theorem le_objCompatMap {rec rec' : Rec} (h : RecLe rec rec') (env : Env) (props : List (String × PropT))
     (m : List (String × V)) : (objCompatMap rec env props m).le (objCompatMap rec' env props m) := by
